@@ -45,14 +45,14 @@ def do_op(op, D):
     k = op[0]
     rng = np.random.default_rng(op[-1])
     if k == 'daun':
-        _, n, degree, reg, direction, bd, seed = op
+        _, n, degree, reg, direction, bd, dr, seed = op
         reg = tuple(reg) if isinstance(reg, list) else reg
-        abel.daun.daun_transform(rng.normal(size=(2, n)), reg=reg, degree=degree, dr=1.0, direction=direction,
+        abel.daun.daun_transform(rng.normal(size=(2, n)), reg=reg, degree=degree, dr=dr, direction=direction,
                                  basis_dir=bd_of(bd, D), verbose=False)
     elif k == 'basex':
-        _, n, sigma, reg, correction, direction, bd, seed = op
+        _, n, sigma, reg, correction, direction, bd, dr, seed = op
         abel.basex.basex_transform(rng.normal(size=(2, n)), sigma=sigma, reg=reg, correction=correction, basis_dir=bd_of(bd, D),
-                                   dr=1.0, verbose=False, direction=direction)
+                                   dr=dr, verbose=False, direction=direction)
     elif k == 'rbasex':
         _, Rmax, order, odd, reg, wkind, direction, bd, seed = op
         reg = tuple(reg) if isinstance(reg, list) else reg
@@ -68,20 +68,26 @@ def probe(pr, D):
     """round trip with the operators the library uses NOW; returns (deviation, cond)"""
     k = pr[0]
     rng = np.random.default_rng(pr[-1])
+    def both(T, n):
+        """both compositions with the operators as the library hands them out now; the two directions are requested an
+        unequal number of times (cache hits on one side only)"""
+        Xa = rng.normal(size=(3, n)) * 10; Xb = rng.normal(size=(3, n)) * 10
+        T(Xa, 'forward'); Fb = T(Xb, 'forward')
+        e = rel(T(Fb, 'inverse'), Xb)
+        T(Xa, 'inverse'); T(Xa, 'inverse'); Ib = T(Xb, 'inverse')
+        e = max(e, rel(T(Ib, 'forward'), Xb))
+        e = max(e, rel(T(T(Xa, 'forward'), 'inverse'), Xa), rel(T(T(Xa, 'inverse'), 'forward'), Xa))
+        return e
     if k == 'daun':
-        _, n, degree, bd, seed = pr
-        X = rng.normal(size=(3, n)) * 10
-        T = lambda Y, d: abel.daun.daun_transform(Y, reg=None, degree=degree, dr=1.0, direction=d, basis_dir=bd_of(bd, D), verbose=False)
-        e = max(rel(T(T(X, 'forward'), 'inverse'), X), rel(T(T(X, 'inverse'), 'forward'), X))
-        # also in the other call order (inverse first)
-        e = max(e, rel(T(T(X, 'inverse'), 'forward'), X), rel(T(T(X, 'forward'), 'inverse'), X))
+        _, n, degree, bd, dr, seed = pr
+        T = lambda Y, d: abel.daun.daun_transform(Y, reg=None, degree=degree, dr=dr, direction=d, basis_dir=bd_of(bd, D), verbose=False)
+        e = both(T, n)
         c = np.linalg.cond(abel.daun._bs_daun(n, degree))
     elif k == 'basex':
-        _, n, bd, seed = pr
-        X = rng.normal(size=(3, n)) * 10
-        T = lambda Y, d: abel.basex.basex_transform(Y, sigma=1.0, reg=0.0, correction=False, basis_dir=bd_of(bd, D), dr=1.0,
+        _, n, bd, dr, seed = pr
+        T = lambda Y, d: abel.basex.basex_transform(Y, sigma=1.0, reg=0.0, correction=False, basis_dir=bd_of(bd, D), dr=dr,
                                                     verbose=False, direction=d)
-        e = max(rel(T(T(X, 'forward'), 'inverse'), X), rel(T(T(X, 'inverse'), 'forward'), X))
+        e = both(T, n)
         M, Mc = abel.basex._bs_basex(n, 1.0, verbose=False)
         c = max(np.linalg.cond(np.array(M)), np.linalg.cond(np.array(Mc)))
     elif k == 'rbasex':
@@ -196,9 +202,11 @@ def gen_histories(rng, quick):
             reg = regs[int(rng.integers(len(regs)))]
             direction = 'inverse' if (reg == 'nonneg' or rng.random() < 0.7) else 'forward'
             nn = n if rng.random() < 0.7 else n + int(rng.integers(-2, 4))
-            ops.append(['daun', max(nn, 3), int(rng.integers(0, 4)), reg, direction, usebd and bool(rng.random() < 0.85), seed()])
+            ops.append(['daun', max(nn, 3), int(rng.integers(0, 4)), reg, direction, usebd and bool(rng.random() < 0.85),
+                        float(rng.choice([1.0, 1.0, 0.5, 2.5])), seed()])
         degs = sorted(set(o[2] for o in ops))
-        probes = [['daun', n, int(d), usebd, seed()] for d in rng.permutation(degs + [int(rng.integers(0, 4))])]
+        probes = [['daun', n, int(d), usebd, float(rng.choice([1.0, 0.5, 2.5])), seed()]
+                  for d in rng.permutation(degs + [int(rng.integers(0, 4))])]
         H.append(('daun', split(ops, probes)))
     # ---- rbasex: orders / odd / reg / weights with invalid radii / directions
     rregs = [None, ['L2', 1.0], ['diff', 1.0], ['SVD', 0.2], 'pos']
@@ -220,13 +228,14 @@ def gen_histories(rng, quick):
         H.append(('rbasex', split(ops, probes)))
     # ---- basex: sigma / reg / correction / sizes
     for _ in range(max(nh // 2, 2)):
+        # (ops may be empty: the probes then start from fresh caches)
         n = int(rng.choice([5, 9] if quick else [5, 9, 16, 30]))
         usebd = bool(rng.random() < 0.75)
         ops = []
-        for _ in range(int(rng.integers(1, 5))):
+        for _ in range(int(rng.integers(0, 5))):
             nn = n if rng.random() < 0.6 else n + int(rng.integers(-2, 6))
             ops.append(['basex', max(nn, 3), float(rng.choice([1.0, 1.0, 2.0])), float(rng.choice([0.0, 0.0, 5.0])),
                         bool(rng.random() < 0.5), 'inverse' if rng.random() < 0.6 else 'forward',
-                        usebd and bool(rng.random() < 0.85), seed()])
-        H.append(('basex', split(ops, [['basex', n, usebd, seed()]])))
+                        usebd and bool(rng.random() < 0.85), float(rng.choice([1.0, 0.5, 2.5])), seed()])
+        H.append(('basex', split(ops, [['basex', n, usebd, float(dr), seed()] for dr in rng.permutation([1.0, 0.5, 2.5])[:2]])))
     return H
